@@ -201,6 +201,9 @@ template<int B> inline Sym<B> operator-(const Sym<B>& a) { return Sym<B>::raw(po
 template<int B> inline Sym<B> operator+(const Sym<B>& a) { return Sym<B>::raw((uint32_t)a.h); }
 template<int B> inline bool operator==(const Sym<B>& a, const Sym<B>& b) { return a.rpoly() == b.rpoly(); }
 template<int B> inline bool operator!=(const Sym<B>& a, const Sym<B>& b) { return a.rpoly() != b.rpoly(); }
+template<int B> inline bool operator==(const Sym<B>& a, int b) { return a.rpoly() == pconst(b); }
+template<int B> inline bool operator!=(const Sym<B>& a, int b) { return a.rpoly() != pconst(b); }
+template<int B> inline bool operator==(const Sym<B>& a, double b) { return a.rpoly() == pconst((long long)b); }
 // mixed with plain numbers
 #define VF_MIXED(OP) \
 template<int B> inline Sym<B> operator OP(const Sym<B>& a, int b) { return a OP Sym<B>(b); } \
